@@ -7,6 +7,7 @@ ORDER = ["avx512vnni_vbmi2", "avx512vbmi2", "avx512vbmi", "avx512ifma", "avx512p
          "avx512cd", "avx512f", "avxvnni", "fma3_avx2", "avx2", "fma3_avx", "avx", "fma4", "fma3_sse", "sse4_2", "sse4_1", "ssse3", "sse3", "sse2"]
 SIZES = [1, 2, 4, 8, 16, 32, 64]
 TRAITS = ["as_integer_t", "as_unsigned_integer_t", "as_float_t"]
+N_LISTS = 0
 
 
 POS_IN = ("template <class L, class A> struct pos_in; template <class A, class... R> struct pos_in<xsimd::arch_list<A, R...>, A> { static constexpr unsigned long value = 0; };"
@@ -23,9 +24,14 @@ def order_tu_lines():
         for j, b in enumerate(ORDER):
             body.append("r->base[%d] = std::is_base_of<%s, %s>::value; r->pos_other[%d] = pos_in<xsimd::all_x86_architectures, %s>::value;" % (j, ARCHS[b][0], A, j, ARCHS[b][0]))
         tu.append('extern "C" void geom_row_%d(row* r) { %s }' % (i, " ".join(body)))
-    tu.append("struct lists { unsigned long best_is_head, list_align[4], list_align_expect[4]; };")
+    import itertools
+    reps = ["sse2", "avx2", "avx512f"]          # one member per alignment class (16 / 32 / 64 bytes)
+    al_lists = [list(c) for n in (1, 2, 3, 4) for c in itertools.product(reps, repeat=n)]
+    al_lists += [["sse2", "avx"], ["avx512f", "sse4_2", "avx2"], ["avx2", "fma3_sse"], ["avx", "sse4_1", "avx512bw"], ["ssse3", "fma3_avx2", "sse2", "avx512dq"]]
+    global N_LISTS
+    N_LISTS = len(al_lists)
+    tu.append("struct lists { unsigned long best_is_head, list_align[%d], list_align_expect[%d]; };" % (N_LISTS, N_LISTS))
     body = ["l->best_is_head = std::is_same<xsimd::best_arch, xsimd::supported_architectures::best>::value && pos_in<xsimd::supported_architectures, xsimd::best_arch>::value == 0;"]
-    al_lists = [["sse2", "avx"], ["avx512f", "sse4_2", "avx2"], ["sse2"], ["avx2", "fma3_sse"]]
     for k, l in enumerate(al_lists):
         body.append("l->list_align[%d] = xsimd::arch_list<%s>::alignment(); l->list_align_expect[%d] = %d;" % (k, ", ".join(ARCHS[a][0] for a in l), k, max(ARCHS[a][1] // 8 for a in l)))
     tu.append('extern "C" void geom_lists(lists* l) { %s }' % " ".join(body))
@@ -46,9 +52,9 @@ def order_contract(name, P):
                 ens.append("(!(*%s).f2.e[%d] || (*%s).f3.e[%d] > (*%s).f0)" % (P, k, P, k, P))
         return ens, "position and parents of %s in all_x86_architectures / supported_architectures" % ARCHS[ORDER[i]][0]
     ens.append("(*%s).f0 == 1" % P)
-    for k in range(4):
+    for k in range(N_LISTS):
         ens.append("(*%s).f1.e[%d] == (*%s).f2.e[%d]" % (P, k, P, k))
-    return ens, "best_arch heads supported_architectures; arch_list::alignment() is the maximum member alignment"
+    return ens, "best_arch heads supported_architectures; arch_list::alignment() is the maximum member alignment (every sequence of alignment classes up to length 4)"
 
 
 def run(tier, seed):
@@ -62,7 +68,7 @@ def run(tier, seed):
     tu = ["#include <xsimd/xsimd.hpp>", "#include <cstdint>", "#include <type_traits>",
           "template <class B> struct lanes_of { static constexpr size_t value = B::size; };",
           "template <> struct lanes_of<void> { static constexpr size_t value = 0; };",
-          "struct geom { unsigned long size[10], bsize[10], csize[2], regbytes[10], alignment, requires_alignment, is_batch[10], scalar_w[10], mask_lanes[10], ret_lanes[10]; };",
+          "struct geom { unsigned long size[10], bsize[10], csize[2], regbytes[10], alignment, requires_alignment, is_batch[10], scalar_w[10], mask_lanes[10], ret_lanes[10], bret_same[10], ret_same[10]; };",
           "struct sized { unsigned long lanes[10][7]; };",
           "struct traits { unsigned long w[10][3]; };"]
     tids = ALL_TYPES
@@ -75,6 +81,7 @@ def run(tier, seed):
             body.append("g->size[%d] = %s::size; g->bsize[%d] = xsimd::batch_bool<%s, %s>::size; g->regbytes[%d] = sizeof(typename %s::register_type);" % (i, B, i, T, A, i, B))
             body.append("g->is_batch[%d] = xsimd::is_batch<%s>::value; g->scalar_w[%d] = sizeof(typename xsimd::scalar_type<%s>::type);" % (i, B, i, B))
             body.append("g->mask_lanes[%d] = xsimd::mask_type_t<%s>::size; g->ret_lanes[%d] = xsimd::simd_return_type<%s, %s, %s>::size;" % (i, B, i, T, T, A))
+            body.append("g->bret_same[%d] = std::is_same<xsimd::simd_return_type<bool, %s, %s>, xsimd::batch_bool<%s, %s>>::value; g->ret_same[%d] = std::is_same<xsimd::simd_return_type<%s, %s, %s>, %s>::value;" % (i, T, A, T, A, i, T, T, A, B))
         body.append("g->csize[0] = xsimd::batch<std::complex<float>, %s>::size; g->csize[1] = xsimd::batch<std::complex<double>, %s>::size;" % (A, A))
         body.append("g->alignment = %s::alignment(); g->requires_alignment = %s::requires_alignment();" % (A, A))
         tu.append('extern "C" void geom_%s(geom* g) { %s }' % (a, " ".join(body)))
@@ -115,6 +122,7 @@ def run(tier, seed):
                 ens.append("(*%s).f3.e[%d] == %d" % (P, i, regbits // 8))                      # sizeof(register_type)
                 ens.append("(*%s).f6.e[%d] == 1 && (*%s).f7.e[%d] == %d" % (P, i, P, i, w))    # is_batch, scalar_type width
                 ens.append("(*%s).f8.e[%d] == (*%s).f0.e[%d] && (*%s).f9.e[%d] == (*%s).f0.e[%d]" % (P, i, P, i, P, i, P, i))
+                ens.append("(*%s).f10.e[%d] == 1 && (*%s).f11.e[%d] == 1" % (P, i, P, i))      # simd_return_type names the batch / batch_bool of the same architecture
             ens.append("(*%s).f2.e[0] == (*%s).f0.e[8] && (*%s).f2.e[1] == (*%s).f0.e[9]" % (P, P, P, P))    # complex batches: lanes of float/double
             ens.append("(*%s).f4 != 0 && ((*%s).f4 & ((*%s).f4 - 1)) == 0 && (*%s).f4 >= %d" % (P, P, P, P, regbits // 8))  # alignment: power of two >= aligned-load requirement
             title, where = "geometry of %s" % ARCHS[a][0], "include/xsimd/types/xsimd_%s_register.hpp" % a
